@@ -94,5 +94,36 @@ pub fn run(thorough: bool) -> Vec<Part> {
             part.machinery_errors.push(e.clone());
         }
     }
+    // long runs of interrupted writes, alone and between short writes (hidden counters)
+    {
+        use crate::connw::WAct;
+        use crate::explore::System;
+        let cfg = WCfg { label: "EINTR storms".into(), bodies: vec![5, 600], max_enqueues: 4, all_lengths: false, bodyless_variants: false };
+        let mut runs = 0u64;
+        for k in [1usize, 2, 7, 8, 9, 10, 16, 40, 300] {
+            // (a) k interrupts in a row, then everything is accepted
+            let mut p = vec![WAct::Enqueue(2), WAct::Enqueue(1)];
+            p.extend(std::iter::repeat(WAct::Eintr).take(k));
+            // (b) one interrupt after every short write of 50 bytes
+            let mut q = vec![WAct::Enqueue(2), WAct::Enqueue(1)];
+            for _ in 0..k.min(11) {
+                q.push(WAct::Accept(50));
+                q.push(WAct::Eintr);
+            }
+            for path in [p, q] {
+                for cut in 1..=path.len() {
+                    let o = cfg.run(&path[..cut]);
+                    runs += 1;
+                    if let Some(v) = o.violation {
+                        part.violations.push(v);
+                        break;
+                    }
+                }
+            }
+        }
+        part.add("transitions", runs);
+        part.add("traces_validated_against_impl", runs);
+        part.set("eintr_storm_runs", serde_json::json!(runs));
+    }
     vec![part]
 }
